@@ -8,11 +8,35 @@ from ..nf import Rat, C
 from ..source import Unsupported, AnchorError, norm, walk_no_nested
 from ..xlate import Interp, Obj, ListV, Elem, SumV, Raised, RankOrder, DictV, Frame, _RaisedExc
 from .. import fitmodel
-from .common import same, show, coeff_vector, sub, pub
+from .common import same, show, coeff_vector, sub
 from .rxnfix import get_public
 
 NASA = 'pmutt.empirical.nasa'
 SHO = 'pmutt.empirical.shomate'
+
+
+def pub(obj, name, default=None):
+    """obj.name as a user reads it: whatever the class puts behind the name (a stored attribute, an @property, a
+    ``name = property(fget, fset)`` in the class body); ``default`` when reading it raises"""
+    if not isinstance(obj, Obj):
+        return default
+    I = getattr(obj, 'interp', None)
+    if I is None or obj.ci is None:
+        return obj.attrs.get(name, default)
+    try:
+        return get_public(I, obj, name)
+    except _RaisedExc:
+        return default
+
+
+def public_function(repo, mod, name):
+    """(module, def) of the documented function ``mod.name`` - wherever the def lives: a function imported into the
+    module is as much ``mod.name`` for a user as one defined there"""
+    m = repo.module(mod)
+    r = repo.lookup(m, name)
+    if isinstance(r, tuple) and r[0] == 'function':
+        return r[1], r[2]
+    raise AnchorError('%s.%s not found' % (mod, name))
 
 
 def slot_tables(run, repo):
@@ -27,15 +51,15 @@ def slot_tables(run, repo):
         kw = {'a': a, 'T': T}
         if fam == 'shomate':
             kw = {'a': a, 'T': Elem(T), 'units': D.sym('units')}
-        m = repo.module(mod)
         vals = {}
         for q in ('CpoR', 'HoRT', 'SoR'):
-            fn = m.functions.get(prefix + q)
-            if fn is None:
-                raise AnchorError('%s.%s%s not found' % (mod, prefix, q))
+            m, fn = public_function(repo, mod, prefix + q)
             r = I.call_function(m, fn, [], dict(kw))
             if isinstance(r, Elem):
                 r = r.r
+            if not isinstance(r, Rat):
+                raise Unsupported('%s.%s%s on symbolic coefficients gives %s, not an expression'
+                                  % (mod, prefix, q, show(r, 80)))
             vals[q] = r
         powers, hconst, sconst, dead = {}, [], [], []
         for i, ai in enumerate(a.items):
@@ -79,6 +103,7 @@ def fitted(repo, qual, kind, extra=None, ranks=None, fallback=None):
     rk.update(ranks or {})
     I = Interp(repo, order=RankOrder(rk, const_ranks=True, fallback=fallback or _fallback_rank))
     fitmodel.install(I)
+    fit_options(I)
     D = I.D
     ci = repo.cls(qual)
     owner, fn = repo.find_method(ci, 'from_data')
@@ -89,6 +114,95 @@ def fitted(repo, qual, kind, extra=None, ranks=None, fallback=None):
     o = I.call_function(owner.module, fn, [], kw, self_obj=ci, owner=owner, name=owner.qual + '.from_data')
     I.c03_again = (ci, owner, fn, dict(kw))
     return I, o, owner, fn
+
+
+
+# what the least-squares library calls are told besides the data: the statement of the rule about a fit is "the
+# parameters minimise the plain sum of squared residuals over the (T, Cp) pairs handed over", so everything that changes
+# WHAT is minimised (weights, bounds, a robust loss) must be read; options that only steer the search are named one by one
+_CURVE_FIT_POS = ('p0', 'sigma', 'absolute_sigma', 'check_finite', 'bounds', 'method', 'jac')
+_CURVE_FIT_NEUTRAL = {'p0', 'absolute_sigma', 'check_finite', 'method', 'jac', 'maxfev', 'max_nfev'}
+
+
+def fit_options(I):
+    """the models of np.polyfit / curve_fit (pmv/fitmodel.py) keep x, y and the model function; here the remaining
+    arguments of the call are kept with the recorded fit (``FitCall.options``) for `least_squares_problem`"""
+    base_cf, base_pf = I.native['scipy.optimize.curve_fit'], I.native['numpy.polyfit']
+
+    def curve_fit(I_, fr, args, kwargs, n):
+        out = base_cf(I_, fr, args, kwargs, n)
+        opts = dict(zip(_CURVE_FIT_POS, args[3:]))
+        if len(args) > 3 + len(_CURVE_FIT_POS):
+            raise Unsupported('curve_fit with %d positional arguments' % len(args), n)
+        opts.update({k: v for k, v in kwargs.items() if k not in ('f', 'xdata', 'ydata')})
+        I_.fit_calls[-1].options = opts
+        return out
+
+    def polyfit(I_, fr, args, kwargs, n):
+        if len(args) > 3:
+            raise Unsupported('np.polyfit with positional rcond/full/w/cov', n)
+        out = base_pf(I_, fr, args, kwargs, n)
+        I_.fit_calls[-1].options = {}
+        return out
+    I.native['scipy.optimize.curve_fit'] = curve_fit
+    I.native['numpy.polyfit'] = polyfit
+    return I
+
+
+def _infinite(v, sign):
+    """v is +-infinity (np.inf is the interpreter's symbol INF), a scalar or a vector of them"""
+    if isinstance(v, (ListV, Elem)):
+        items = v.items if isinstance(v, ListV) else [v.r]
+        return bool(items) and all(_infinite(x, sign) for x in items)
+    return isinstance(v, Rat) and v.eq(Rat.atom('INF') * C(sign))
+
+
+def varying_data(I):
+    """the atoms that stand for data varying from point to point (the entries of constant data are all the same)"""
+    return lambda a_: I.data_kind.get(a_) in ('generic', 'nan')
+
+
+def least_squares_problem(I, fc, is_data):
+    """None when the recorded fit minimises the unweighted sum of squared residuals over its (x, y) pairs; otherwise a
+    text saying what else it minimises.  Options whose effect on the minimiser is not known here are refused."""
+    opts = getattr(fc, 'options', None)
+    if opts is None:
+        raise Unsupported('least-squares call recorded without its options', fc.node)
+    for k, v in sorted(opts.items(), key=lambda kv: kv[0]):
+        if k in _CURVE_FIT_NEUTRAL:
+            continue
+        if k == 'full_output':
+            if v is False:
+                continue
+            raise Unsupported('curve_fit(full_output=%s)' % show(v, 40), fc.node)
+        if k == 'nan_policy':
+            if v is None or I.plain(v) == 'raise':
+                continue
+            raise Unsupported('curve_fit(nan_policy=%s)' % show(v, 40), fc.node)
+        if k == 'sigma':
+            if v is None:
+                continue
+            items = v.items if isinstance(v, ListV) else [v.r] if isinstance(v, Elem) else [v]
+            if not items or not all(isinstance(x, Rat) for x in items):
+                raise Unsupported('curve_fit(sigma=%s)' % show(v, 60), fc.node)
+            if any(is_data(a_) for x in items for a_ in x.atoms()):
+                return 'the residuals are weighted with 1/sigma, sigma=%s: the points do not count equally' % show(v, 80)
+            if all(x.eq(items[0]) for x in items) and not items[0].iszero():
+                continue            # the same uncertainty for every point: the unweighted problem
+            raise Unsupported('curve_fit(sigma=%s): whether the weights are uniform is not decided' % show(v, 60),
+                              fc.node)
+        if k == 'loss':
+            if isinstance(I.plain(v), str) and I.plain(v) == 'linear':
+                continue
+            return 'loss=%s: not the sum of squared residuals is minimised' % show(v, 40)
+        if k == 'bounds':
+            lo_hi = v.items if isinstance(v, ListV) and len(v) == 2 else None
+            if lo_hi is not None and _infinite(lo_hi[0], -1) and _infinite(lo_hi[1], 1):
+                continue
+            raise Unsupported('curve_fit(bounds=%s): a constrained fit (whether a bound is active depends on the data '
+                              'and on the fitting unit)' % show(v, 60), fc.node)
+        raise Unsupported('curve_fit(%s=...): effect on the fitted parameters is not modelled' % k, fc.node)
+    return None
 
 
 SECOND = ' [second species fitted in the same process]'
@@ -107,16 +221,35 @@ def fitted_again(I):
 
 def evaluator(I, repo, fam, q, a, T, units=None):
     mod, prefix = EVAL[fam]
-    m = repo.module(mod)
-    f = m.functions.get(prefix + q)
-    if f is None:
-        raise AnchorError('%s.%s%s not found' % (mod, prefix, q))
+    m, f = public_function(repo, mod, prefix + q)
     if fam == 'shomate':
         arr = ListV([T])
         arr.is_array = True
         r = I.call_function(m, f, [], {'a': a, 'T': arr, 'units': units})
         return r.items[0] if isinstance(r, ListV) and len(r) == 1 else r
     return I.call_function(m, f, [], {'a': a, 'T': T})
+
+
+def power_identity(I, repo, fam, vec, fc, x, T, g, units, owner):
+    """(holds, Cp/R(T) of the species, fitted model at x(T)): the family's public Cp evaluator applied to the
+    coefficient vector at the temperature ``T`` times the weight ``g`` of the fitted quantity equals the model that
+    the recorded fit ``fc`` adjusted to the data, evaluated at the abscissa ``x`` (an expression in T)"""
+    D = I.D
+    if fc.kind == 'polyfit':
+        model = C(0)
+        for j, pj in zip(range(fc.deg, -1, -1), fc.params):
+            model = model + pj * D.pow_sym(x, C(j)) if j else model + pj
+    else:
+        # curve_fit hands the model function the abscissa data as it received them (a float array)
+        fr = Frame(I, owner.module, {}, None, None)
+        model = fr.apply(fc.func, [Elem(x)] + list(fc.params), {}, fc.node)
+        if isinstance(model, ListV) and len(model) == 1:
+            model = model.items[0]
+        if isinstance(model, Elem):
+            model = model.r
+    got = evaluator(I, repo, fam, 'CpoR', vec, T, units)
+    ok = isinstance(got, Rat) and isinstance(model, Rat) and same(got * g, model)
+    return ok, got, model
 
 
 def vectors_of(I, fam, o):
@@ -228,11 +361,14 @@ def fit_rules(run, repo, tables):
                 y = fc.y.r if isinstance(fc.y, Elem) else None
                 cps = [a_ for a_ in (y.atoms() if isinstance(y, Rat) else []) if a_.split('|')[0] in ('cp', 'kc')]
                 ts = [a_ for a_ in (x.atoms() if isinstance(x, Rat) else []) if a_.split('|')[0] == 'Tdata']
-                okd = isinstance(x, Rat) and len(ts) == 1 and x.eq(Rat.atom(ts[0])) and len(cps) == 1
+                # x: the temperature data or a function of them alone (T/1000, T - T0: the composition "model function
+                # at x(T)" is compared below, not the spelling of the abscissa); y: a multiple of the Cp data
+                okd = isinstance(x, Rat) and len(ts) == 1 and len(cps) == 1 and \
+                    not any(I.data_kind.get(a_) is not None and a_ != ts[0] for a_ in x.atoms())
                 if not run.check(okd, 'DATAFLOW.fit-data', con, key,
-                                 'the least-squares call is not handed the temperature data as x and a quantity '
-                                 'proportional to the Cp data as y (x=%s, y=%s)' % (show(fc.x, 80), show(fc.y, 80)),
-                                 owner.module, fc.node):
+                                 'the least-squares call is not handed (a function of) the temperature data as x and a '
+                                 'quantity proportional to the Cp data as y (x=%s, y=%s)'
+                                 % (show(fc.x, 80), show(fc.y, 80)), owner.module, fc.node):
                     continue
                 xm = ts[0].split('|', 1)[1] if '|' in ts[0] else ''
                 ym = cps[0].split('|', 1)[1] if '|' in cps[0] else ''
@@ -245,19 +381,12 @@ def fit_rules(run, repo, tables):
                     run.fail('SLOT.power', con, key, 'the fitted quantity %s is not proportional to the Cp data'
                              % show(y, 120), owner.module, fc.node)
                     continue
-                if fc.kind == 'polyfit':
-                    model = C(0)
-                    for j, pj in zip(range(fc.deg, -1, -1), fc.params):
-                        model = model + pj * D.pow_sym(x, C(j)) if j else model + pj
-                else:
-                    fr = Frame(I, owner.module, {}, None, None)
-                    model = fr.apply(fc.func, [x] + list(fc.params), {}, fc.node)
-                    if isinstance(model, ListV) and len(model) == 1:
-                        model = model.items[0]
-                    if isinstance(model, Elem):
-                        model = model.r
-                got = evaluator(I, repo, fam, 'CpoR', vec, x, units)
-                ok = isinstance(got, Rat) and isinstance(model, Rat) and same(got * g, model)
+                wrong = least_squares_problem(I, fc, varying_data(I))
+                run.check(wrong is None, 'DATAFLOW.fit-weights', con, key,
+                          'the fit of %s is not the least-squares fit of the data: %s' % (label, wrong),
+                          owner.module, fc.node,
+                          sample={'family': fam, 'vector': label, 'options': sorted(getattr(fc, 'options', {}))})
+                ok, got, model = power_identity(I, repo, fam, vec, fc, x, Rat.atom(ts[0]), g, units, owner)
                 run.check(ok, 'SLOT.power', con, key,
                           'the species evaluates Cp/R(T) = %s, but what was fitted to the data is %s%s: a fitted '
                           'coefficient sits in a slot whose basis is another power of T (or is scaled)'
@@ -335,10 +464,11 @@ def partly_zero_data(run, repo, tables):
     """heat capacities that vanish at the cold end of the grid only (an adsorbate whose vibrations are frozen out at
     T_low: Cp/R(100 K) of a 2000 cm^-1 mode is 1e-9) are data like any other: the Cp coefficients come from the
     least-squares fit, not from the shortcut for species without heat capacity.  Bounded instance: a concrete grid of
-    15 temperatures, first Cp entry zero, the other 14 generic."""
+    15 temperatures, first Cp entry zero, the other 14 generic (Shomate, NASA-7 and NASA-9 with one break at 800 K)."""
     n = 0
     for fam, qual, extra in (('shomate', SHO + '.Shomate', lambda I: {'units': I.D.sym('units')}),
-                             ('nasa', NASA + '.Nasa', lambda I: {'T_mid': C(800)})):
+                             ('nasa', NASA + '.Nasa', lambda I: {'T_mid': C(800)}),
+                             ('nasa9', NASA + '.Nasa9', lambda I: {'T_mid': as_array(ListV([C(800)]))})):
         ci = repo.cls(qual)
         owner, fn = repo.find_method(ci, 'from_data')
         con = '%s.%s.from_data' % (qual.split('.')[-2], qual.split('.')[-1])
@@ -445,6 +575,327 @@ def bounded_extract(I):
     return I
 
 
+def affine_of(tv, xv):
+    """(a, b) with x_k = a*T_k + b for all k (the abscissa a fit was given, against the temperatures of the same data
+    points), None when the numbers are related otherwise"""
+    if len(tv) != len(xv) or not tv or None in xv:
+        return None
+    if len(tv) == 1 or tv[0] == tv[-1]:
+        return (Fr(1), Fr(0)) if list(xv) == list(tv) else None
+    a_ = (xv[-1] - xv[0]) / (tv[-1] - tv[0])
+    b_ = xv[0] - a_ * tv[0]
+    return (a_, b_) if all(x == a_ * t + b_ for t, x in zip(tv, xv)) else None
+
+
+def weight_law(D, tv, gs, Tq):
+    """g(Tq) with g(T_k) = gs[k] for all data points of a fit: a constant, or c * T**p with an integer p (what the
+    families use: Cp, Cp*T**2); None when the weights follow neither"""
+    if not gs or any(not isinstance(g_, Rat) or g_.iszero() for g_ in gs):
+        return None
+    if all(g_.eq(gs[0]) for g_ in gs):
+        return gs[0]
+    ratios = []
+    for g_ in gs:
+        q = g_ / gs[0]
+        if not q.is_const():
+            return None
+        ratios.append(q.const_value())
+    for p_ in (1, 2, 3, 4, -1, -2, -3, -4):
+        if all(r_ == (t / tv[0]) ** p_ for r_, t in zip(ratios, tv)):
+            return gs[0] * C(Fr(1) / tv[0] ** p_) * D.pow_sym(Tq, C(p_))
+    return None
+
+
+def bounded_nasa(repo, t_mid, errs=None, npts=15):
+    """Nasa.from_data on 15 temperatures 100 ... 1500 K written out entry by entry and 15 generic heat capacities
+    cp0 ... cp14, ``t_mid`` = positions of the candidate breaks (a tuple: T_mid is the list of those temperatures; an
+    int: T_mid is that one temperature).  The fit errors are uninterpreted positive numbers; ``errs`` gives their
+    order per candidate (an error belongs to the candidate whose two fits it was computed from)."""
+    ci = repo.cls(NASA + '.Nasa')
+    owner, fn = repo.find_method(ci, 'from_data')
+    T = grid(100, 1500, npts)
+    tvals = [_num(x) for x in T.items]
+    pos = t_mid if isinstance(t_mid, tuple) else (t_mid,)
+    errs = errs or (1,) * len(pos)
+    cands = [tvals[k] for k in pos]
+    ranks = {'T_ref': 450, 'T_ref2': 1250}
+    I = Interp(repo, order=RankOrder(ranks, const_ranks=True, fallback=_fallback_rank))
+    bounded_data(I)
+    bounded_extract(I)
+    fit_options(I)
+    D = I.D
+    base_mean = I.native['numpy.mean']
+    means = {}
+
+    def candidate_of(v):
+        ks = set()
+        for x in v.items:
+            ks |= {int(a_[4:].split('.')[0]) for a_ in x.atoms() if a_.startswith('FIT#')}
+        xs = []
+        for k in sorted(ks):
+            fy = I.fit_calls[k - 1].y
+            # the data points of a fit: read off the heat capacities it was given (cp<k> belongs to T[k])
+            idx = [[int(a_[2:]) for a_ in y_.atoms() if a_.startswith('cp')] if isinstance(y_, Rat) else []
+                   for y_ in fy.items] if isinstance(fy, ListV) else [[]]
+            if not idx or any(len(i_) != 1 for i_ in idx):
+                return None
+            xs.append([tvals[i_[0]] for i_ in idx])
+        if len(xs) != 2:
+            return None
+        xs.sort(key=min)
+        hit = [c_ for c_ in cands if max(xs[0]) <= c_ <= min(xs[1])]
+        return cands.index(hit[0]) if len(hit) == 1 else None
+
+    def mean(I_, fr, args, kwargs, nd):
+        v = kwargs['a'] if 'a' in kwargs else (args[0] if args else None)
+        if isinstance(v, ListV) and v.items and all(isinstance(x, Rat) for x in v.items) and len(args) <= 1 \
+                and not [k for k in kwargs if k != 'a']:
+            if all(x.iszero() for x in v.items):
+                return C(0)
+            name = 'MEAN{bounded#%d}' % (len(means) + 1)
+            means[name] = candidate_of(v)
+            if means[name] is not None:
+                ranks[name] = errs[means[name]]
+            return I_.D.sym(name)
+        return base_mean(I_, fr, args, kwargs, nd)
+    I.native['numpy.mean'] = mean
+    cps = []
+    for k in range(npts):
+        I.data_kind['cp%d' % k] = 'generic'
+        cps.append(D.sym('cp%d' % k))
+    cp = as_array(ListV(cps))
+    kw = {'name': 'sp', 'T': T, 'CpoR': cp, 'T_ref': D.sym('T_ref'), 'HoRT_ref': D.sym('HoRT_ref'),
+          'SoR_ref': D.sym('SoR_ref'),
+          'T_mid': ListV([C(c_) for c_ in cands]) if isinstance(t_mid, tuple) else C(cands[0])}
+    given = [('T', T, list(T.items)), ('CpoR', cp, list(cp.items))]
+    o = I.call_function(owner.module, fn, [], kw, self_obj=ci, owner=owner, name=owner.qual + '.from_data')
+    I.c03_again = (ci, owner, fn, dict(kw))
+    return I, o, tvals, given, owner, fn
+
+
+def bounded_vector(run, I, repo, fam, tab, con, key, label, vec, tvals, want, units, owner, fn):
+    """one coefficient vector of a species fitted on a written-out grid: it has the evaluator's length, its
+    heat-capacity slots come from ONE fit, that fit was given exactly the data points ``want`` (a list of admissible
+    index lists) - heat capacities and abscissae of the same points, the abscissa a function of the temperature, the
+    ordinate one multiple of the heat capacity, no weights - and the family's public Cp evaluator applied to the vector
+    is the model that was fitted (as for data of unknown length in fit_rules; here the NUMBER of points is known to the
+    code).  -> (complaints about the data of the fit - the caller words that finding -, data points of the fit | None);
+    SLOT.* and DATAFLOW.fit-weights are reported here"""
+    D = I.D
+    cp_slots = sorted(tab['powers'])
+    npts = len(tvals)
+    if not run.check(isinstance(vec, ListV) and len(vec) == tab['n'], 'SLOT.length', con, '%s %s' % (key, label),
+                     '%s has %s coefficients but the %s evaluators use %d'
+                     % (label, len(vec) if isinstance(vec, ListV) else show(vec), fam, tab['n']), owner.module, fn):
+        return [], None
+    ks = fit_of(I, vec, cp_slots)
+    if len(ks) != 1:
+        return ['%s does not come from one fit' % label], None
+    fc = I.fit_calls[ks[0] - 1]
+    xv = [_num(t) for t in fc.x.items] if isinstance(fc.x, ListV) else None
+    yv = [sorted(a_ for a_ in y_.atoms() if a_.startswith('cp')) if isinstance(y_, Rat) else None
+          for y_ in fc.y.items] if isinstance(fc.y, ListV) else None
+    if not xv or None in xv or yv is None or len(yv) != len(xv) or any(not y_ or len(y_) != 1 for y_ in yv):
+        return ['%s comes from a fit of %s against %s' % (label, show(fc.x, 60), show(fc.y, 60))], None
+    idx = [int(y_[0][2:]) for y_ in yv]
+    why = []
+    if idx not in want:
+        why.append('%s was fitted to the data points %s, not to the points %s'
+                   % (label, idx, ' or '.join('%d..%d' % (w[0], w[-1]) if w else 'none' for w in want)))
+    # the abscissa of data point k is (a function of) its temperature
+    ab = affine_of([tvals[k] for k in idx], xv)
+    if ab is None:
+        if len(set(xv)) == len(xv) and sorted(xv) in (xv, xv[::-1]):
+            raise Unsupported('abscissa of the fit of %s is a non-linear function of the temperatures' % label, fc.node)
+        return why + ['the heat capacities of the fit of %s are not those of its temperatures' % label], idx
+    if len(idx) == 1 and ab != (Fr(1), Fr(0)):
+        raise Unsupported('abscissa of a one-point fit', fc.node)
+    # y_k = g(T_k) * cp_k: one weight for all points, or a power of the temperature (NASA-9 fits Cp*T^2)
+    gs = [D.d(y_, 'cp%d' % k) for y_, k in zip(fc.y.items, idx)]
+    Tq = D.sym('Tq')
+    gq = weight_law(D, [tvals[k] for k in idx], gs, Tq)
+    if gq is None or not all(y_.eq(g_ * D.sym('cp%d' % k)) for g_, y_, k in zip(gs, fc.y.items, idx)):
+        run.fail('SLOT.power', con, '%s %s' % (key, label), 'the fitted quantity %s is not the Cp data the caller '
+                 'supplied times one weight (a constant or a power of the temperature)' % show(fc.y, 160),
+                 owner.module, fc.node)
+        return why, idx
+    wrong = least_squares_problem(I, fc, varying_data(I))
+    run.check(wrong is None, 'DATAFLOW.fit-weights', con, '%s %s' % (key, label),
+              'the fit of %s is not the least-squares fit of the data: %s' % (label, wrong), owner.module, fc.node)
+    ok, got, model = power_identity(I, repo, fam, vec, fc, Tq * C(ab[0]) + C(ab[1]), Tq, gq, units, owner)
+    run.check(ok, 'SLOT.power', con, '%s %s' % (key, label),
+              'the species evaluates Cp/R(T) = %s, but what was fitted to the %d data points is %s%s: a fitted '
+              'coefficient sits in a slot whose basis is another power of T (or is scaled)'
+              % (show(got, 160), len(idx), show(model, 160), '' if gq.eq(C(1)) else ' divided by %s' % show(gq, 40)),
+              owner.module, fc.node,
+              sample={'family': fam, 'vector': label, 'points': len(idx), 'fitted': show(model, 200)})
+    return why, idx
+
+
+def bounded_segments(run, I, repo, tables, o, tvals, win, key, owner, fn):
+    """the two coefficient vectors of a NASA-7 species fitted on the written-out grid against the break T[win]:
+    a_low is the fit of exactly the data points up to that break and a_high the fit of the others (either convention
+    for the point ON the break), see bounded_vector.  -> list of complaints about the split (the caller words the
+    finding)"""
+    npts = len(tvals)
+    why = []
+    want = [list(range(0, m)) for m in (win, win + 1)]
+    for label, side in (('a_low', 'low'), ('a_high', 'high')):
+        w, idx = bounded_vector(run, I, repo, 'nasa', tables['nasa'], 'nasa.Nasa.from_data', key, label, pub(o, label),
+                                tvals, want, None, owner, fn)
+        why += ['%s (break T[%d])' % (x, win) for x in w]
+        if side == 'low':
+            want = [list(range(len(idx), npts))] if idx is not None and idx in want else \
+                [list(range(m, npts)) for m in (win, win + 1)]
+    return why
+
+
+def shomate_written_out(run, repo, tables):
+    """a user fits one data set several times (another unit, another family): 15 temperatures and 15 generic heat
+    capacities written out entry by entry are handed to Shomate.from_data in one fitting unit and then - the SAME array
+    objects - in another.  After each call the arrays hold what they held before; each species is the unweighted fit of
+    all 15 (T, Cp) pairs, evaluates the model that was fitted, and reproduces its reference."""
+    ci = repo.cls(SHO + '.Shomate')
+    owner, fn = repo.find_method(ci, 'from_data')
+    con = 'shomate.Shomate.from_data'
+    tab = tables['shomate']
+    npts = 15
+    I = Interp(repo, order=RankOrder({'T_ref': 450, 'T_ref2': 1250}, const_ranks=True, fallback=_fallback_rank))
+    bounded_data(I)
+    bounded_extract(I)
+    fit_options(I)
+    I.token_syms.add('units2')
+    D = I.D
+    T = grid(100, 1500, npts)
+    tvals = [_num(x) for x in T.items]
+    cps = []
+    for k in range(npts):
+        I.data_kind['cp%d' % k] = 'generic'
+        cps.append(D.sym('cp%d' % k))
+    cp = as_array(ListV(cps))
+    given = [('T', T, list(T.items)), ('CpoR', cp, list(cp.items))]
+    n = 0
+    for sfx, which in (('', ''), ('2', ' [second species fitted from the same arrays, in another unit]')):
+        units = D.sym('units' + sfx)
+        kw = {'name': 'sp' + sfx, 'T': T, 'CpoR': cp, 'T_ref': D.sym('T_ref' + sfx), 'HoRT_ref': D.sym('HoRT_ref' + sfx),
+              'SoR_ref': D.sym('SoR_ref' + sfx), 'units': units}
+        o = I.call_function(owner.module, fn, [], kw, self_obj=ci, owner=owner, name=owner.qual + '.from_data')
+        key = '%d temperatures and heat capacities written out%s' % (npts, which)
+        n += 1
+        if not isinstance(o, Obj):
+            run.fail('SLOT.power', con, key, 'from_data does not build a species: %s' % show(o, 120), owner.module, fn)
+            break
+        n += data_intact(run, con, key, given, owner, fn)
+        a = pub(o, 'a')
+        why, _idx = bounded_vector(run, I, repo, 'shomate', tab, con, key, 'a', a, tvals, [list(range(npts))], units,
+                                   owner, fn)
+        run.check(not why, 'DATAFLOW.fit-data', con, key, '%s - the species is the fit of all %d (T, Cp) pairs'
+                  % ('; '.join(why), npts), owner.module, fn,
+                  sample='Shomate.from_data(T=linspace(100, 1500, 15), CpoR=[cp0 ... cp14], units)%s' % which)
+        if isinstance(a, ListV) and len(a) == tab['n']:
+            Tref = D.sym('T_ref' + sfx)
+            H = evaluator(I, repo, 'shomate', 'HoRT', a, Tref, units)
+            S = evaluator(I, repo, 'shomate', 'SoR', a, Tref, units)
+            run.check(same(H, D.sym('HoRT_ref' + sfx)), 'ANCHOR.H', con, key, 'H/RT(T_ref) = %s, not HoRT_ref'
+                      % show(H), owner.module, fn)
+            run.check(same(S, D.sym('SoR_ref' + sfx)), 'ANCHOR.S', con, key, 'S/R(T_ref) = %s, not SoR_ref'
+                      % show(S), owner.module, fn)
+            run.check(same(pub(o, 'T_low'), C(tvals[0])) and same(pub(o, 'T_high'), C(tvals[-1])), 'DATAFLOW.bounds',
+                      con, key, 'temperature bounds are (%s, %s), not the span of the data'
+                      % (show(pub(o, 'T_low')), show(pub(o, 'T_high'))), owner.module, fn)
+            n += 3
+    return n
+
+
+def nasa9_written_out(run, repo, tables):
+    """NASA-9 on the smallest grid of the property (15 temperatures 100 ... 1500 K and 15 generic heat capacities,
+    written out entry by entry, so that the NUMBER of points per interval is known to the code): one interval, two
+    (break 800 K) and three (breaks 500 and 1000 K: four to five points per interval, fewer than the seven coefficients
+    fitted).  Every interval's vector has the evaluator's length and evaluates the model that was fitted to exactly the
+    data points of that interval (either convention for a point ON a bound; consecutive intervals share no point and
+    drop none between them); the species is anchored (T_ref = 450 K, first interval), H and S join at every break, the
+    bounds are the span of the data; the caller's arrays are left as they were; a second species fitted from the same
+    arrays likewise."""
+    ci = repo.cls(NASA + '.Nasa9')
+    owner, fn = repo.find_method(ci, 'from_data')
+    con = 'nasa.Nasa9.from_data'
+    tab = tables['nasa9']
+    npts = 15
+    n = 0
+    for breaks in ((), (7,), (4, 9)):
+        I = Interp(repo, order=RankOrder({'T_ref': 450, 'T_ref2': 350}, const_ranks=True, fallback=_fallback_rank))
+        bounded_data(I)
+        bounded_extract(I)
+        fit_options(I)
+        D = I.D
+        T = grid(100, 1500, npts)
+        tvals = [_num(x) for x in T.items]
+        cps = []
+        for k in range(npts):
+            I.data_kind['cp%d' % k] = 'generic'
+            cps.append(D.sym('cp%d' % k))
+        cp = as_array(ListV(cps))
+        tm = as_array(ListV([C(tvals[k]) for k in breaks]))
+        given = [('T', T, list(T.items)), ('CpoR', cp, list(cp.items)), ('T_mid', tm, list(tm.items))]
+        key0 = '%d temperatures written out, %d interval(s)%s' % (
+            npts, len(breaks) + 1, ', break(s) at %s' % ', '.join('T[%d]' % k for k in breaks) if breaks else '')
+        for sfx, which in (('', ''), ('2', SECOND)):
+            key = key0 + which
+            kw = {'name': 'sp' + sfx, 'T': T, 'CpoR': cp, 'T_ref': D.sym('T_ref' + sfx),
+                  'HoRT_ref': D.sym('HoRT_ref' + sfx), 'SoR_ref': D.sym('SoR_ref' + sfx), 'T_mid': tm}
+            o = I.call_function(owner.module, fn, [], kw, self_obj=ci, owner=owner, name=owner.qual + '.from_data')
+            n += 1
+            segs = get_public(I, o, 'nasas') if isinstance(o, Obj) else None
+            if not run.check(isinstance(segs, ListV) and len(segs) == len(breaks) + 1, 'DATAFLOW.segments', con, key,
+                             'expected a species of %d interval(s), got %s' % (len(breaks) + 1, show(
+                                 segs if segs is not None else o, 120)), owner.module, fn):
+                break
+            n += data_intact(run, con, key, given, owner, fn)
+            why = []
+            edges = [0] + list(breaks) + [npts - 1]
+            prev_end = None
+            A = []
+            for j, s_ in enumerate(segs.items):
+                # data points of interval j: T[edges[j]] .. T[edges[j+1]] with either convention at both bounds (also at
+                # the ends of the data: the code as it stands leaves the first data point out, see the NOTE of fit_rules)
+                lo_, hi_ = edges[j], edges[j + 1]
+                want = [list(range(a_, b_ + 1)) for a_ in ((lo_, lo_ + 1) if prev_end is None else (prev_end + 1,))
+                        for b_ in (hi_ - 1, hi_)]
+                vec = pub(s_, 'a')
+                A.append(vec)
+                w, idx = bounded_vector(run, I, repo, 'nasa9', tab, con, key, 'nasas[%d].a' % j, vec, tvals, want, None,
+                                        owner, fn)
+                why += w
+                prev_end = idx[-1] if idx else hi_
+                bl, bh = C(tvals[lo_]), C(tvals[hi_])
+                run.check(same(pub(s_, 'T_low'), bl) and same(pub(s_, 'T_high'), bh), 'DATAFLOW.bounds', con,
+                          '%s interval %d' % (key, j), 'interval %d spans (%s, %s), not (%s, %s)'
+                          % (j, show(pub(s_, 'T_low')), show(pub(s_, 'T_high')), show(bl), show(bh)), owner.module, fn)
+            run.check(not why, 'DATAFLOW.fit-data', con, key, '%s - every interval is the fit of the data points between '
+                      'its bounds' % '; '.join(why), owner.module, fn,
+                      sample='Nasa9.from_data(T=linspace(100, 1500, 15), T_mid=%s)%s'
+                      % ([str(tvals[k]) for k in breaks], which))
+            n += 1 + len(segs.items)
+            if not all(isinstance(v, ListV) and len(v) == tab['n'] for v in A):
+                continue
+            H = lambda a, T_: evaluator(I, repo, 'nasa9', 'HoRT', a, T_)
+            S = lambda a, T_: evaluator(I, repo, 'nasa9', 'SoR', a, T_)
+            Tref = D.sym('T_ref' + sfx)
+            run.check(same(H(A[0], Tref), D.sym('HoRT_ref' + sfx)), 'ANCHOR.H', con, key,
+                      'H/RT(T_ref) = %s, not HoRT_ref (T_ref in the first interval)' % show(H(A[0], Tref), 120),
+                      owner.module, fn)
+            run.check(same(S(A[0], Tref), D.sym('SoR_ref' + sfx)), 'ANCHOR.S', con, key,
+                      'S/R(T_ref) is not SoR_ref (T_ref in the first interval)', owner.module, fn)
+            okc = all(same(H(A[j], C(tvals[k])), H(A[j + 1], C(tvals[k]))) and
+                      same(S(A[j], C(tvals[k])), S(A[j + 1], C(tvals[k]))) for j, k in enumerate(breaks))
+            run.check(okc, 'CONT.H', con, key, 'H or S is discontinuous at a break temperature', owner.module, fn)
+            run.check(same(get_public(I, o, 'T_low'), C(tvals[0])) and same(get_public(I, o, 'T_high'), C(tvals[-1])),
+                      'DATAFLOW.bounds', con, key, 'the species reports the bounds (%s, %s), not the span of the data'
+                      % (show(get_public(I, o, 'T_low'), 40), show(get_public(I, o, 'T_high'), 40)), owner.module, fn)
+            n += 4
+    return n
+
+
 def bounded_candidates(run, repo, tables):
     """T_mid given as a list of candidates on a grid small enough that the NUMBER of data points on either side of a
     candidate matters (the code looks at it): 15 temperatures 100 ... 1500 K written out entry by entry, 15 generic
@@ -452,66 +903,16 @@ def bounded_candidates(run, repo, tables):
     uninterpreted positive numbers whose order is the instance parameter; an error belongs to the candidate whose
     two fits it was computed from.  Expectation (documented contract of T_mid as a list, as in candidate_search):
     the species has the break of the candidate with the smallest error, a_low is the fit of exactly the data points
-    up to that break and a_high the fit of the others."""
-    ci = repo.cls(NASA + '.Nasa')
-    owner, fn = repo.find_method(ci, 'from_data')
+    up to that break and a_high the fit of the others; and every clause decided on data of unknown length holds for
+    this species too (slots, anchor, continuity, bounds; the caller's arrays are left as they were)."""
     cp_slots = sorted(tables['nasa']['powers'])
     npts = 15
     n = 0
     for pos, errs in (((1, 7, 9), (3, 2, 1)), ((5, 7, 13), (2, 1, 3)), ((1, 7, 9), (1, 2, 3)), ((11, 5, 7), (3, 2, 1))):
-        T = grid(100, 1500, npts)
-        tvals = [_num(x) for x in T.items]
-        cands = [tvals[k] for k in pos]
         win = pos[errs.index(min(errs))]
         small = [k for k in pos if min(k + 1, npts - 1 - k) < 5][0]
-        ranks = {'T_ref': 450, 'T_ref2': 1250}
-        I = Interp(repo, order=RankOrder(ranks, const_ranks=True, fallback=_fallback_rank))
-        bounded_data(I)
-        bounded_extract(I)
-        D = I.D
-        base_mean = I.native['numpy.mean']
-        means = {}
-
-        def candidate_of(v, I=I, cands=cands):
-            ks = set()
-            for x in v.items:
-                ks |= {int(a_[4:].split('.')[0]) for a_ in x.atoms() if a_.startswith('FIT#')}
-            xs = []
-            for k in sorted(ks):
-                fx = I.fit_calls[k - 1].x
-                vals = [_num(t) for t in fx.items] if isinstance(fx, ListV) else [None]
-                if not vals or None in vals:
-                    return None
-                xs.append(vals)
-            if len(xs) != 2:
-                return None
-            xs.sort(key=min)
-            hit = [c_ for c_ in cands if max(xs[0]) <= c_ <= min(xs[1])]
-            return cands.index(hit[0]) if len(hit) == 1 else None
-
-        def mean(I_, fr, args, kwargs, nd, base_mean=base_mean, means=means, ranks=ranks, errs=errs,
-                 candidate_of=candidate_of):
-            v = kwargs['a'] if 'a' in kwargs else (args[0] if args else None)
-            if isinstance(v, ListV) and v.items and all(isinstance(x, Rat) for x in v.items) and len(args) <= 1 \
-                    and not [k for k in kwargs if k != 'a']:
-                if all(x.iszero() for x in v.items):
-                    return C(0)
-                name = 'MEAN{bounded#%d}' % (len(means) + 1)
-                means[name] = candidate_of(v)
-                if means[name] is not None:
-                    ranks[name] = errs[means[name]]
-                return I_.D.sym(name)
-            return base_mean(I_, fr, args, kwargs, nd)
-        I.native['numpy.mean'] = mean
-        cps = []
-        for k in range(npts):
-            I.data_kind['cp%d' % k] = 'generic'
-            cps.append(D.sym('cp%d' % k))
-        cp = ListV(cps)
-        cp.is_array = True
-        kw = {'name': 'sp', 'T': T, 'CpoR': cp, 'T_ref': D.sym('T_ref'), 'HoRT_ref': D.sym('HoRT_ref'),
-              'SoR_ref': D.sym('SoR_ref'), 'T_mid': ListV([C(c_) for c_ in cands])}
-        o = I.call_function(owner.module, fn, [], kw, self_obj=ci, owner=owner, name=owner.qual + '.from_data')
+        I, o, tvals, given, owner, fn = bounded_nasa(repo, pos, errs, npts)
+        cands = [tvals[k] for k in pos]
         key = '%d temperatures, candidates T[%d], T[%d], T[%d], smallest error at T[%d]' % ((npts,) + pos + (win,))
         n += 1
         if not isinstance(o, Obj):
@@ -522,31 +923,7 @@ def bounded_candidates(run, repo, tables):
         why = []
         if _num(tm) != tvals[win]:
             why.append('the species is built with T_mid=%s' % show(tm))
-        split = None
-        for label, vec, side in (('a_low', pub(o, 'a_low'), 'low'), ('a_high', pub(o, 'a_high'), 'high')):
-            ks = fit_of(I, vec, cp_slots) if isinstance(vec, ListV) else []
-            if len(ks) != 1:
-                why.append('%s does not come from one fit' % label)
-                continue
-            fc = I.fit_calls[ks[0] - 1]
-            xv = [_num(t) for t in fc.x.items] if isinstance(fc.x, ListV) else None
-            yv = [sorted(a_ for a_ in y_.atoms() if a_.startswith('cp')) if isinstance(y_, Rat) else None
-                  for y_ in fc.y.items] if isinstance(fc.y, ListV) else None
-            if not xv or None in xv or yv is None or len(yv) != len(xv):
-                why.append('%s comes from a fit of %s against %s' % (label, show(fc.x, 60), show(fc.y, 60)))
-                continue
-            idx = [tvals.index(t) if t in tvals else None for t in xv]
-            # either convention for the point ON the break (T <= T_mid | T > T_mid, or T < T_mid | T >= T_mid)
-            want = [list(range(0, m)) if side == 'low' else list(range(m, npts)) for m in (win, win + 1)]
-            if split is not None:
-                want = [list(range(split, npts))]
-            if idx not in want:
-                why.append('%s was fitted to the data points %s, not to the points %s the break T[%d]'
-                           % (label, idx, 'up to' if side == 'low' else 'above', win))
-            elif side == 'low':
-                split = len(idx)
-            if yv != [['cp%d' % k] if k is not None else None for k in idx]:
-                why.append('the heat capacities of the %s fit are not those of its temperatures' % side)
+        why += bounded_segments(run, I, repo, tables, o, tvals, win, key, owner, fn)
         run.check(not why, 'DATAFLOW.T_mid', 'nasa.Nasa.from_data', key,
                   '%s - break temperature and both coefficient sets must come from the candidate with the smallest '
                   'error, T[%d] = %s K (errors of the candidates in the order %s; candidate T[%d] leaves %d of %d '
@@ -555,6 +932,47 @@ def bounded_candidates(run, repo, tables):
                   owner.module, fn,
                   sample='Nasa.from_data(T=linspace(100, 1500, 15), T_mid=%s) errors %s -> T_mid=%s'
                   % ([str(c_) for c_ in cands], errs, tvals[win]))
+        n += data_intact(run, 'nasa.Nasa.from_data', key, given, owner, fn)
+        if _num(tm) is not None:
+            n += nasa7_species(run, I, repo, o, key, -1 if _num(tm) >= 450 else 1, '', cp_slots, owner, fn,
+                               bounds=(C(tvals[0]), C(tvals[-1])))
+    return n
+
+
+def small_segments(run, repo, tables):
+    """ONE break temperature next to an end of the smallest grid of the property (n_T = 15): T_mid = T[3] leaves four
+    data points up to the break, T_mid = T[11] three above it, T_mid = T[1] two - fewer than the five a quartic needs,
+    the case the code warns about.  Whatever is fitted to so few points (a quartic through them, a polynomial of lower
+    degree), the species evaluates the polynomial that was fitted, is anchored and continuous, keeps the break and
+    spans the data; a second species fitted from the same arrays likewise."""
+    cp_slots = sorted(tables['nasa']['powers'])
+    npts = 15
+    n = 0
+    for k in (3, 11, 1):
+        I, o, tvals, given, owner, fn = bounded_nasa(repo, k, None, npts)
+        below = k + 1
+        key = '%d temperatures, T_mid = T[%d] (%d data points %s the break)' % (
+            npts, k, min(below, npts - below), 'up to' if below < npts - below else 'above')
+        n += 1
+        if not isinstance(o, Obj):
+            run.fail('SLOT.power', 'nasa.Nasa.from_data', key, 'from_data does not build a species: %s'
+                     % show(o, 120), owner.module, fn)
+            continue
+        n += data_intact(run, 'nasa.Nasa.from_data', key, given, owner, fn)
+        o2 = fitted_again(I)
+        for sp, sfx, which in ((o, '', ''), (o2, '2', SECOND)):
+            if not isinstance(sp, Obj):
+                run.fail('SLOT.power', 'nasa.Nasa.from_data', key + which, 'from_data does not build a species: %s'
+                         % show(sp, 120), owner.module, fn)
+                continue
+            why = bounded_segments(run, I, repo, tables, sp, tvals, k, key + which, owner, fn)
+            run.check(not why, 'DATAFLOW.fit-data', 'nasa.Nasa.from_data', key + which,
+                      '%s - with T_mid = T[%d] = %s K a_low is the fit of the data points up to the break and a_high '
+                      'the fit of the others' % ('; '.join(why), k, tvals[k]), owner.module, fn,
+                      sample='Nasa.from_data(T=linspace(100, 1500, 15), T_mid=%s)%s' % (tvals[k], which))
+            tref = 450 if not sfx else 1250
+            n += nasa7_species(run, I, repo, sp, key + which, -1 if tvals[k] >= tref else 1, sfx, cp_slots, owner, fn,
+                               want_tm=C(tvals[k]), bounds=(C(tvals[0]), C(tvals[-1])))
     return n
 
 
@@ -660,6 +1078,83 @@ def only_fit_atoms(vec, slots):
                for i in slots)
 
 
+def nasa7_species(run, I, repo, sp, label, side, sfx, cp_slots, owner, fn, want_tm=None, bounds=None):
+    """the clauses of the property on ONE fitted NASA-7 species, read through its public attributes: anchored at its
+    reference (T_ref below / at / above the break: ``side`` < / = / > 0), H and S continuous at the break, the
+    heat-capacity slots exactly what the fit returned, break as expected (``want_tm``) and a number, bounds = span of
+    the data.  Returns the number of obligations."""
+    D = I.D
+    con = 'nasa.Nasa.from_data'
+    Tref, Href, Sref = D.sym('T_ref' + sfx), D.sym('HoRT_ref' + sfx), D.sym('SoR_ref' + sfx)
+    if not isinstance(sp, Obj):
+        run.fail('ANCHOR.H', con, label, 'from_data does not build a species: %s' % show(sp, 120), owner.module,
+                 sp.node if isinstance(sp, Raised) and hasattr(sp.node, 'lineno') else fn)
+        return 1
+    al, ah = pub(sp, 'a_low'), pub(sp, 'a_high')
+    tm = pub(sp, 'T_mid')
+    if not run.check(isinstance(tm, Rat) and isinstance(al, ListV) and isinstance(ah, ListV), 'DATAFLOW.T_mid', con,
+                     label, 'the species is built with T_mid=%s, a_low=%s, a_high=%s: the break must be one '
+                     'temperature and the coefficients two vectors' % (show(tm, 60), show(al, 60), show(ah, 60)),
+                     owner.module, fn):
+        return 1
+    H = lambda a, T: evaluator(I, repo, 'nasa', 'HoRT', a, T)
+    S = lambda a, T: evaluator(I, repo, 'nasa', 'SoR', a, T)
+    seg = al if side <= 0 else ah
+    segname = 'low' if side <= 0 else 'high'
+    # at T_ref == T_mid either segment may carry the anchor (they join there)
+    okH = same(H(seg, Tref), Href) or (side == 0 and same(H(ah, Tref), Href))
+    okS = same(S(seg, Tref), Sref) or (side == 0 and same(S(ah, Tref), Sref))
+    run.check(okH, 'ANCHOR.H', con, label,
+              'H/RT of the fitted species at T_ref (%s segment) is %s, not HoRT_ref'
+              % (segname, show(H(seg, Tref))), owner.module, fn,
+              sample='Nasa.from_data: H(T_ref)=HoRT_ref, %s' % label)
+    run.check(okS, 'ANCHOR.S', con, label,
+              'S/R of the fitted species at T_ref (%s segment) is %s, not SoR_ref'
+              % (segname, show(S(seg, Tref))), owner.module, fn)
+    run.check(same(H(al, tm), H(ah, tm)), 'CONT.H', con, label,
+              'H is discontinuous at T_mid: low %s vs high %s' % (show(H(al, tm)), show(H(ah, tm))),
+              owner.module, fn)
+    run.check(same(S(al, tm), S(ah, tm)), 'CONT.S', con, label,
+              'S is discontinuous at T_mid', owner.module, fn)
+    # the Cp fit is left untouched and only the integration-constant slots are written
+    run.check(only_fit_atoms(al, cp_slots) and only_fit_atoms(ah, cp_slots), 'DATAFLOW.cp-slots',
+              con, label, 'a heat-capacity coefficient was modified while anchoring H and S',
+              owner.module, fn)
+    run.check(want_tm is None or same(tm, want_tm), 'DATAFLOW.T_mid', con, label,
+              'the species is built with T_mid=%s, not the break temperature the data were split at' % show(tm),
+              owner.module, fn)
+    lo, hi = bounds if bounds is not None else (D.sym('MIN{(Tdata)}'), D.sym('MAX{(Tdata)}'))
+    run.check(same(pub(sp, 'T_low'), lo) and same(pub(sp, 'T_high'), hi), 'DATAFLOW.bounds', con,
+              label, 'temperature bounds are (%s, %s), not the span (min, max) of the data'
+              % (show(pub(sp, 'T_low')), show(pub(sp, 'T_high'))), owner.module, fn)
+    return 8
+
+
+def data_intact(run, con, label, given, owner, fn):
+    """the caller's data arrays are inputs: after from_data they hold what they held before (a user fits the next
+    species - another family, another unit - from the same arrays).  ``given`` = [(name, vector, entries before)]"""
+    for name, vec, before in given:
+        now = vec.items if isinstance(vec, ListV) else [vec.r]
+        ok = len(now) == len(before) and all(
+            (isinstance(x, Rat) and isinstance(y, Rat) and x.eq(y)) or x is y for x, y in zip(now, before))
+        run.check(ok, 'DATAFLOW.data-intact', con, '%s %s' % (label, name),
+                  'after from_data the caller\'s %s array holds %s instead of %s: the data were changed in place, the '
+                  'species fitted next from the same array is fitted to other numbers'
+                  % (name, show(vec, 100), show(ListV(list(before)) if len(before) != 1 else before[0], 100)),
+                  owner.module, fn)
+    return len(given)
+
+
+def as_array(v):
+    v.is_array = True
+    v.dtype = 'float'
+    return v
+
+
+def entries(vec):
+    return list(vec.items) if isinstance(vec, ListV) else [vec.r]
+
+
 def nasa7_pipeline(run, repo, tables):
     ci = repo.cls(NASA + '.Nasa')
     owner, fn = repo.find_method(ci, 'from_data')
@@ -667,61 +1162,31 @@ def nasa7_pipeline(run, repo, tables):
     tab = tables['nasa']
     cp_slots = sorted(tab['powers'])
     n = 0
-    for (label0, rank), kind in itertools.product((('T_ref<T_mid', 2), ('T_ref=T_mid', 3), ('T_ref>T_mid', 4)),
-                                                  ('generic', 'zero')):
+    # all-zero Cp data with every documented form of T_mid (None, one temperature, a list of candidates): the
+    # degenerate path still has to deliver an anchored, continuous species with ONE break temperature - whether that
+    # is the user's value, one of the candidates or a data point is left open, all of them are ranked alike
+    forms = (('generic', 'scalar', ''), ('zero', 'none', ' [all-zero Cp data]'),
+             ('zero', 'scalar', ' [all-zero Cp data, T_mid one temperature]'),
+             ('zero', 'list', ' [all-zero Cp data, T_mid two candidates]'))
+    for (label0, rank), (kind, form, tag) in itertools.product(
+            (('T_ref<T_mid', 2), ('T_ref=T_mid', 3), ('T_ref>T_mid', 4)), forms):
+        extra = {'none': None, 'scalar': lambda I_: {'T_mid': I_.D.sym('Tm')},
+                 'list': lambda I_: {'T_mid': as_array(ListV([I_.D.sym('Tma'), I_.D.sym('Tmb')]))}}[form]
+        ranks = {'Tm': 3, 'Tma': 3, 'Tmb': 3, 'T_ref': rank, 'T_ref2': rank}
         if kind == 'zero':
             # the documented fallback takes the break from the data: an entry of the temperature vector, ranked like
             # the break of the generic instance
-            label0 += ' [all-zero Cp data]'
-            I, o, _o, _f = fitted(repo, NASA + '.Nasa', kind, None, {'T_ref': rank, 'T_ref2': rank},
+            I, o, _o, _f = fitted(repo, NASA + '.Nasa', kind, extra, ranks,
                                   fallback=lambda a_: 3 if a_.startswith('AT{') else _fallback_rank(a_))
         else:
-            I, o, _o, _f = fitted(repo, NASA + '.Nasa', kind, lambda I_: {'T_mid': I_.D.sym('Tm')},
-                                  {'Tm': 3, 'T_ref': rank, 'T_ref2': rank})
+            I, o, _o, _f = fitted(repo, NASA + '.Nasa', kind, extra, ranks)
+        given = [(nm, I.c03_again[3][nm], entries(I.c03_again[3][nm])) for nm in ('T', 'CpoR')]
+        n += data_intact(run, 'nasa.Nasa.from_data', label0 + tag, given, owner, fn)
         o2 = fitted_again(I)
         D = I.D
         for sp, sfx, which in ((o, '', ''), (o2, '2', SECOND)):
-            label = label0 + which
-            Tref, Href, Sref = D.sym('T_ref' + sfx), D.sym('HoRT_ref' + sfx), D.sym('SoR_ref' + sfx)
-            if not isinstance(sp, Obj):
-                run.fail('ANCHOR.H', 'nasa.Nasa.from_data', label, 'from_data does not build a species: %s'
-                         % show(sp, 120), owner.module, fn)
-                n += 1
-                continue
-            al, ah = pub(sp, 'a_low'), pub(sp, 'a_high')
-            H = lambda a, T: evaluator(I, repo, 'nasa', 'HoRT', a, T)
-            S = lambda a, T: evaluator(I, repo, 'nasa', 'SoR', a, T)
-            seg = al if rank <= 3 else ah
-            segname = 'low' if rank <= 3 else 'high'
-            # at T_ref == T_mid either segment may carry the anchor (they join there)
-            okH = same(H(seg, Tref), Href) or (rank == 3 and same(H(ah, Tref), Href))
-            okS = same(S(seg, Tref), Sref) or (rank == 3 and same(S(ah, Tref), Sref))
-            run.check(okH, 'ANCHOR.H', 'nasa.Nasa.from_data', label,
-                      'H/RT of the fitted species at T_ref (%s segment) is %s, not HoRT_ref'
-                      % (segname, show(H(seg, Tref))), owner.module, fn,
-                      sample='Nasa.from_data: H(T_ref)=HoRT_ref, %s' % label)
-            run.check(okS, 'ANCHOR.S', 'nasa.Nasa.from_data', label,
-                      'S/R of the fitted species at T_ref (%s segment) is %s, not SoR_ref'
-                      % (segname, show(S(seg, Tref))), owner.module, fn)
-            tm = pub(sp, 'T_mid')
-            run.check(same(H(al, tm), H(ah, tm)), 'CONT.H', 'nasa.Nasa.from_data', label,
-                      'H is discontinuous at T_mid: low %s vs high %s' % (show(H(al, tm)), show(H(ah, tm))),
-                      owner.module, fn)
-            run.check(same(S(al, tm), S(ah, tm)), 'CONT.S', 'nasa.Nasa.from_data', label,
-                      'S is discontinuous at T_mid', owner.module, fn)
-            # the Cp fit is left untouched and only the integration-constant slots are written
-            run.check(only_fit_atoms(al, cp_slots) and only_fit_atoms(ah, cp_slots), 'DATAFLOW.cp-slots',
-                      'nasa.Nasa.from_data', label, 'a heat-capacity coefficient was modified while anchoring H and S',
-                      owner.module, fn)
-            want_tm = D.sym('Tm') if kind == 'generic' else None
-            run.check(want_tm is None or same(tm, want_tm), 'DATAFLOW.T_mid', 'nasa.Nasa.from_data', label,
-                      'the species is built with T_mid=%s, not the break temperature the data were split at' % show(tm),
-                      owner.module, fn)
-            run.check(same(pub(sp, 'T_low'), D.sym('MIN{(Tdata)}')) and
-                      same(pub(sp, 'T_high'), D.sym('MAX{(Tdata)}')), 'DATAFLOW.bounds', 'nasa.Nasa.from_data',
-                      label, 'temperature bounds are (%s, %s), not the span (min, max) of the data'
-                      % (show(pub(sp, 'T_low')), show(pub(sp, 'T_high'))), owner.module, fn)
-            n += 7
+            n += nasa7_species(run, I, repo, sp, label0 + tag + which, rank - 3, sfx, cp_slots, owner, fn,
+                               want_tm=D.sym('Tm') if kind == 'generic' else None)
     return n
 
 
@@ -788,6 +1253,9 @@ def nasa9_pipeline(run, repo, tables, max_seg):
             ranks = {'MIN{(Tdata)}': 10, 'MAX{(Tdata)}': 100, 'T_ref': 15 + 10 * j, 'T_ref2': 15}
             ranks.update({'Tm%d' % k: 20 + 10 * k for k in range(nseg - 1)})
             I, o, _o, _f = fitted(repo, NASA + '.Nasa9', kind, nasa9_extra(nseg), ranks)
+            if j == 0:
+                given = [(nm, I.c03_again[3][nm], entries(I.c03_again[3][nm])) for nm in ('T', 'CpoR', 'T_mid')]
+                n += data_intact(run, 'nasa.Nasa9.from_data', 'segments:%d' % nseg + tag, given, owner, fn)
             twice = j == 0 or run.tier == 'thorough'
             o2 = fitted_again(I) if twice else None        # its reference lies in the first interval
             D = I.D
@@ -907,9 +1375,11 @@ def shomate_pipeline(run, repo, tables):
     n = 0
     for kind in ('generic', 'zero', 'nan'):
         I, o, _o, _f = fitted(repo, SHO + '.Shomate', kind, lambda I_: {'units': I_.D.sym('units')})
+        tag = {'generic': '', 'zero': ' [all-zero Cp data]', 'nan': ' [Cp data with NaN]'}[kind]
+        given = [(nm, I.c03_again[3][nm], entries(I.c03_again[3][nm])) for nm in ('T', 'CpoR')]
+        n += data_intact(run, 'shomate.Shomate.from_data', 'any units' + tag, given, owner, fn)
         o2 = fitted_again(I)
         D = I.D
-        tag = {'generic': '', 'zero': ' [all-zero Cp data]', 'nan': ' [Cp data with NaN]'}[kind]
         units = D.sym('units')
         for sp, sfx, which in ((o, '', ''), (o2, '2', SECOND)):
             key = 'any units' + tag + which
@@ -966,11 +1436,39 @@ def bind_call(fn, args, kwargs, node):
     return out
 
 
+def few_points_linspace(I):
+    """np.linspace with a small concrete number of points between symbolic ends is the array of those points (numpy's
+    definition: start + j*(stop - start)/(num - 1)), so that single entries and slices of it can be taken - the guesses
+    for the NASA-9 breaks are linspace(T_low, T_high, n_interval + 1)[1:-1]; grids of many points stay one vector"""
+    base = I.native['numpy.linspace']
+
+    def linspace(I_, fr, args, kwargs, n):
+        lo = kwargs['start'] if 'start' in kwargs else (args[0] if args else None)
+        hi = kwargs['stop'] if 'stop' in kwargs else (args[1] if len(args) > 1 else None)
+        num = kwargs['num'] if 'num' in kwargs else (args[2] if len(args) > 2 else None)
+        k = _num(num)
+        if k is not None and k.denominator == 1 and 0 <= k <= 8 and isinstance(lo, Rat) and isinstance(hi, Rat) \
+                and len(args) <= 3:
+            k = int(k)
+            return as_array(ListV([lo + (hi - lo) * C(Fr(j, k - 1)) if j else lo for j in range(k)]))
+        return base(I_, fr, args, kwargs, n)
+    I.native['numpy.linspace'] = linspace
+    return I
+
+
 def from_model(run, repo):
     n = 0
+    # Nasa9.from_model: every way of choosing the breaks - a guess handed in (the default instance), none (1, 2, 3
+    # intervals: the guesses are spread by from_model itself), and breaks that are NOT to be optimised
+    n9 = [{'tag': ' [%d interval(s), no T_mid given]' % k, 'n_interval': k, 'breaks': None, 'fit': True} for k in (1, 2, 3)]
+    n9.append({'tag': ' [two breaks given, fit_T_mid=False]', 'n_interval': 3, 'breaks': 2, 'fit': False})
     for (qual, mod, extra), behaviour in itertools.product(
-            ((NASA + '.Nasa', NASA, {}), (NASA + '.Nasa9', NASA, {}), (SHO + '.Shomate', SHO, {})),
+            [(NASA + '.Nasa', NASA, {}), (NASA + '.Nasa9', NASA, {}), (SHO + '.Shomate', SHO, {})] +
+            [(NASA + '.Nasa9', NASA, v) for v in n9],
             ('vector', 'scalar', 'raises', 'vector, name and range taken from the model')):
+        if extra and behaviour != 'vector':
+            continue
+        vtag = extra.get('tag', '')
         # how the source model answers a call with the whole temperature grid: element by element, with one number
         # (HarmonicVib when the number of modes equals the number of temperatures), or with ValueError
         ci = repo.cls(qual)
@@ -1030,12 +1528,19 @@ def from_model(run, repo):
             res.attrs['x'] = v
             return res
         I.native['scipy.optimize.minimize'] = mini
+        few_points_linspace(I)
         Tl, Th = D.sym('T_low'), D.sym('T_high')
         kw = {'model': model} if from_model_attrs else {'model': model, 'name': 'sp', 'T_low': Tl, 'T_high': Th}
-        if qual.endswith('Nasa9'):
+        if qual.endswith('Nasa9') and not extra:
             tm = ListV([D.sym('Tm0')])
             tm.is_array = True
             kw['T_mid'] = tm
+        elif extra:
+            kw['n_interval'] = C(extra['n_interval'])
+            if extra['breaks']:
+                kw['T_mid'] = as_array(ListV([D.sym('Tm%d' % k) for k in range(extra['breaks'])]))
+            if not extra['fit']:
+                kw['fit_T_mid'] = False
         r = I.call_function(owner.module, fn, [], kw, self_obj=ci, owner=owner, name=owner.qual + '.from_model')
         con = '%s.%s.from_model' % (mod.split('.')[-1], ci.name)
         if from_model_attrs:
@@ -1057,11 +1562,27 @@ def from_model(run, repo):
             n += 1
             continue
         if r != 'built' or not cap:
-            run.fail('DATAFLOW.from_model', con, 'delegates', 'from_model does not hand its samples to from_data (%s)'
+            run.fail('DATAFLOW.from_model', con, 'delegates' + vtag, 'from_model does not hand its samples to from_data (%s)'
                      % show(r), owner.module, fn)
             continue
         Tref = cap.get('T_ref')
         href, sref = cap.get('HoRT_ref'), cap.get('SoR_ref')
+        if extra:
+            # the breaks handed to from_data: one per interior bound - what the optimiser returned for the guesses
+            # (n_interval - 1 of them), resp. the user's own when they are not to be optimised
+            got = cap.get('T_mid')
+            nb = extra['n_interval'] - 1
+            if extra['fit']:
+                want = [D.sym('Topt%d' % i) for i in range(nb)]
+            else:
+                want = [D.sym('Tm%d' % i) for i in range(nb)]
+            okb = isinstance(got, ListV) and len(got) == nb and all(same(x, y) for x, y in zip(got.items, want))
+            run.check(okb, 'DATAFLOW.breaks', con, 'T_mid' + vtag,
+                      'from_data is handed T_mid=%s; expected %d break(s): %s' % (
+                          show(got, 80), nb, 'the result of the optimisation started from %d guesses' % nb
+                          if extra['fit'] else 'the breaks supplied by the caller, unchanged'), owner.module, fn,
+                      sample='%s%s -> from_data(T_mid=%s)' % (con, vtag, show(got, 60)))
+            n += 1
 
         def sampled_at(v, meth):
             if isinstance(v, Rat):
@@ -1072,10 +1593,10 @@ def from_model(run, repo):
         th, ts = sampled_at(href, 'get_HoRT'), sampled_at(sref, 'get_SoR')
         if from_model_attrs:
             con = con + ' [range of the model]'
-        run.check(th is not None and isinstance(Tref, Rat) and same(th, Tref), 'DATAFLOW.ref-H', con, 'T_ref',
+        run.check(th is not None and isinstance(Tref, Rat) and same(th, Tref), 'DATAFLOW.ref-H', con, 'T_ref' + vtag,
                   'HoRT_ref is sampled at %s but T_ref=%s is passed on' % (show(th), show(Tref)), owner.module, fn,
                   sample='%s: HoRT_ref = model.get_HoRT(T=T_ref), T_ref=%s' % (con, show(Tref)))
-        run.check(ts is not None and isinstance(Tref, Rat) and same(ts, Tref), 'DATAFLOW.ref-S', con, 'T_ref',
+        run.check(ts is not None and isinstance(Tref, Rat) and same(ts, Tref), 'DATAFLOW.ref-S', con, 'T_ref' + vtag,
                   'SoR_ref is sampled at %s but T_ref=%s is passed on' % (show(ts), show(Tref)), owner.module, fn)
         # T_ref inside the window [T_low, T_high] by construction (affine combination of the bounds)
         inside = False
@@ -1084,16 +1605,16 @@ def from_model(run, repo):
             if wl.is_const() and wh.is_const():
                 a_, b_ = wl.const_value(), wh.const_value()
                 inside = a_ >= 0 and b_ >= 0 and a_ + b_ == 1 and same(Tref, Tl * C(a_) + Th * C(b_))
-        run.check(inside, 'DATAFLOW.ref-window', con, 'T_ref',
+        run.check(inside, 'DATAFLOW.ref-window', con, 'T_ref' + vtag,
                   'T_ref=%s is not a convex combination of T_low and T_high' % show(Tref), owner.module, fn)
         # Cp data sampled from the same model on the grid that is passed on
         Tg, Cp = cap.get('T'), cap.get('CpoR')
         okg = isinstance(Tg, Elem) and isinstance(Cp, Elem) and isinstance(Cp.r, Rat) and \
             any(a_.startswith('model.get_CpoR[') and same(calls[a_], Tg) for a_ in Cp.r.atoms())
-        run.check(okg, 'DATAFLOW.cp-grid', con, 'grid',
+        run.check(okg, 'DATAFLOW.cp-grid', con, 'grid' + vtag,
                   'the heat-capacity samples are not model.get_CpoR evaluated on the temperature grid handed to '
                   'from_data', owner.module, fn)
-        run.check(cap.get('model') is model, 'DATAFLOW.model', con, 'model',
+        run.check(cap.get('model') is model, 'DATAFLOW.model', con, 'model' + vtag,
                   'the fitted species does not keep the source model', owner.module, fn)
         n += 5
     return n
@@ -1154,30 +1675,42 @@ def check(run, repo):
     run.sample({'slot_tables': {k: {'powers': {i: str(p) for i, p in v['powers'].items()},
                                     'hconst': v['hconst'], 'sconst': v['sconst'], 'dead': v['dead']}
                                 for k, v in tables.items()}})
-    n = fit_rules(run, repo, tables)
-    run.floor('fitted coefficient vectors', n, 20)
-    n = partly_zero_data(run, repo, tables)
-    run.floor('partly zero data instances', n, 1)
-    candidate_search(run, repo, tables)
-    n = bounded_candidates(run, repo, tables)
-    run.floor('candidate lists on a bounded grid', n, 3)
-    n = default_break_search(run, repo)
-    run.floor('default break search instances', n, 2)
-    n = nasa7_pipeline(run, repo, tables)
-    run.floor('NASA-7 pipeline instances', n, 21)
-    n = nasa7_fallback_break(run, repo)
-    run.floor('NASA-7 fallback break instances', n, 6)
-    n = nasa9_pipeline(run, repo, tables, 4 if run.tier == 'thorough' else 3)
-    run.floor('NASA-9 pipeline instances', n, 20)
-    n = nasa9_species_bounds(run, repo, 3)
-    run.floor('NASA-9 species bounds', n, 6)
-    shomate_pipeline(run, repo, tables)
-    n = from_model(run, repo)
-    run.floor('from_model instances', n, 15)
+    # the groups of instances are independent of each other (each builds its own interpreters).  A construct outside
+    # the interpreted fragment met in one group is a refusal (exit 2) - unless another group establishes a violation:
+    # that is then what is reported (the policy of pmv.main.run_rules, made independent of the order of the groups)
+    refused = []
+
+    def group(name, floor, f, *args):
+        try:
+            n_ = f(run, repo, *args)
+        except Unsupported as e:
+            refused.append(e)
+            return
+        if floor is not None:
+            run.floor(name, n_, floor)
+    group('fitted coefficient vectors', 20, fit_rules, tables)
+    group('partly zero data instances', 3, partly_zero_data, tables)
+    group('candidate lists', None, candidate_search, tables)
+    group('candidate lists on a bounded grid', 3, bounded_candidates, tables)
+    group('one break next to an end of a bounded grid', 3, small_segments, tables)
+    group('default break search instances', 2, default_break_search)
+    group('NASA-7 pipeline instances', 21, nasa7_pipeline, tables)
+    group('NASA-7 fallback break instances', 6, nasa7_fallback_break)
+    group('NASA-9 pipeline instances', 20, nasa9_pipeline, tables, 4 if run.tier == 'thorough' else 3)
+    group('NASA-9 species bounds', 6, nasa9_species_bounds, 3)
+    group('NASA-9 on a written-out grid', 30, nasa9_written_out, tables)
+    group('Shomate pipeline', None, shomate_pipeline, tables)
+    group('Shomate fits of one written-out data set', 10, shomate_written_out, tables)
+    group('from_model instances', 15, from_model)
+    if refused:
+        raise refused[0]
 
 
 N = 'pmutt/empirical/nasa.py'
 S_ = 'pmutt/empirical/shomate.py'
+_SHO_FIT = '''        adj_shomate_CpoR = lambda T, A, B, C, D, E: _shomate_CpoR(
+            T=T, A=A, B=B, C=C, D=D, E=E, units=units)
+        [a, _] = curve_fit(adj_shomate_CpoR, T, np.array(CpoR))'''
 MUTANTS = [
     {'name': 'zero rows of the NASA-9 intervals are one shared array again', 'expect': ('ANCHOR', 'Nasa9.from_data'),
      'edits': [(N, '        return [np.zeros(9) for _ in range(len(T_mid) + 1)]', '        return [np.zeros(9)] * (len(T_mid) + 1)')]},
@@ -1301,6 +1834,69 @@ MUTANTS = [
         HoRT_low = get_nasa9_HoRT(a=a[i], T=T_mid[i - 1])
         a[i][7] = T_mid[i - 1] * (HoRT_high - HoRT_low)
     return a''')]},
+    # white-box review, round 3
+    {'name': 'NASA-7: a segment with fewer than 5 points is fitted with a lower degree, the coefficients padded at the '
+             'wrong end', 'expect': ('SLOT.power', 'Nasa.from_data'),
+     'edits': [(N, '    if len(T_low) < 5:', '    deg_low = 4\n    if len(T_low) < 5:'),
+               (N, '        warn(warn_msg, RuntimeWarning)\n    if len(T_high) < 5:',
+                '        warn(warn_msg, RuntimeWarning)\n        deg_low = len(T_low) - 1\n    if len(T_high) < 5:'),
+               (N, '    p_low = np.polyfit(x=T_low, y=CpoR_low, deg=4)',
+                '    p_low = np.append(np.polyfit(x=T_low, y=CpoR_low, deg=deg_low), np.zeros(4 - deg_low))')]},
+    {'name': 'NASA-7: the same for the segment above the break', 'expect': ('SLOT.power', 'Nasa.from_data'),
+     'edits': [(N, '    if len(T_high) < 5:', '    deg_high = 4\n    if len(T_high) < 5:'),
+               (N, '        warn(warn_msg, RuntimeWarning)\n\n    # Fit the polynomials',
+                '        warn(warn_msg, RuntimeWarning)\n        deg_high = len(T_high) - 1\n\n    # Fit the polynomials'),
+               (N, '    p_high = np.polyfit(x=T_high, y=CpoR_high, deg=4)',
+                '    p_high = np.append(np.polyfit(x=T_high, y=CpoR_high, deg=deg_high), np.zeros(4 - deg_high))')]},
+    {'name': 'Shomate: every point weighted by its own heat capacity (sigma=CpoR)',
+     'expect': ('DATAFLOW.fit-weights', 'Shomate.from_data'),
+     'edits': [(S_, '        [a, _] = curve_fit(adj_shomate_CpoR, T, np.array(CpoR))',
+                '        [a, _] = curve_fit(adj_shomate_CpoR, T, np.array(CpoR), sigma=np.array(CpoR))')]},
+    {'name': 'Shomate: a robust loss instead of the sum of squares', 'expect': ('DATAFLOW.fit-weights', 'Shomate.from_data'),
+     'edits': [(S_, '        [a, _] = curve_fit(adj_shomate_CpoR, T, np.array(CpoR))',
+                "        [a, _] = curve_fit(adj_shomate_CpoR, T, np.array(CpoR), method='trf', loss='soft_l1')")]},
+    {'name': 'NASA-7 zero-Cp fallback keeps a user-supplied T_mid, also a whole list of candidates',
+     'expect': ('ANCHOR.H', 'Nasa.from_data'),
+     'edits': [(N, '        T_mid = T[int(len(T) / 2)]',
+                '        if T_mid is None:\n            T_mid = T[int(len(T) / 2)]')]},
+    {'name': 'Shomate: the heat capacities are scaled to the fitting unit in place (the caller\'s array is changed)',
+     'expect': ('DATAFLOW.data-intact', 'Shomate.from_data'),
+     'edits': [(S_, _SHO_FIT, '''        R = c.R(units)
+        Cp = np.asarray(CpoR, dtype=float)
+        Cp *= R
+        adj_shomate_Cp = lambda T, A, B, C, D, E: R * _shomate_CpoR(
+            T=T, A=A, B=B, C=C, D=D, E=E, units=units)
+        [a, _] = curve_fit(adj_shomate_Cp, T, Cp)''')]},
+    {'name': 'NASA-7: the residual of the screening is computed in the caller\'s Cp array',
+     'expect': ('DATAFLOW.data-intact', 'Nasa.from_data'),
+     'edits': [(N, '    mse = np.mean((CpoR_fit - CpoR)**2)',
+                '    residual = CpoR\n    residual -= CpoR_fit\n    mse = np.mean(residual**2)', 0, 2)]},
+    {'name': 'NASA-9: one vanishing heat capacity sends the species down the zero-Cp shortcut',
+     'expect': ('REF.fit', 'Nasa9.from_data'),
+     'edits': [(N, '''    if all([np.isclose(x, 0.) for x in CpoR]) \\
+       or any([np.isnan(x) for x in CpoR]):
+        return [np.zeros(9) for _ in range(len(T_mid) + 1)]''', '''    if any([np.isclose(x, 0.) or np.isnan(x) for x in CpoR]):
+        return [np.zeros(9) for _ in range(len(T_mid) + 1)]''')]},
+    {'name': 'NASA-9: an interval with fewer than 7 points is fitted with a lower degree, zeros padded at the low powers',
+     'expect': ('SLOT.power', 'Nasa9.from_data'),
+     'edits': [(N, '''        res = np.polyfit(T_cond, CpoR_cond*T_cond**2, 6)
+        a.append(np.append(res[::-1], [0, 0]))''', '''        deg = 6
+        if len(T_cond) < 7:
+            deg = len(T_cond) - 1
+        res = np.polyfit(T_cond, CpoR_cond*T_cond**2, deg)
+        a.append(np.append(np.append(res, np.zeros(6 - deg))[::-1], [0, 0]))''')]},
+    {'name': 'NASA-9: Cp*T**2 is computed in the caller\'s Cp array', 'expect': ('DATAFLOW.data-intact', 'Nasa9.from_data'),
+     'edits': [(N, '''    a = []
+    # if not isinstance(T_mid, np.ndarray):''', '''    a = []
+    CpoR *= T**2
+    # if not isinstance(T_mid, np.ndarray):'''),
+               (N, '        res = np.polyfit(T_cond, CpoR_cond*T_cond**2, 6)', '        res = np.polyfit(T_cond, CpoR_cond, 6)')]},
+    {'name': 'Nasa9.from_model: one guess too few when no T_mid is given', 'expect': ('DATAFLOW.breaks', 'Nasa9.from_model'),
+     'edits': [(N, '                T_mid0 = np.linspace(T_low, T_high, n_interval + 1)[1:-1]',
+                '                T_mid0 = np.linspace(T_low, T_high, n_interval)[1:-1]')]},
+    {'name': 'Nasa9.from_model: breaks are optimised although fit_T_mid=False', 'expect': ('DATAFLOW.breaks', 'Nasa9.from_model'),
+     'edits': [(N, '        if fit_T_mid:\n            # If guesses not specified, use even spacing',
+                '        if fit_T_mid or T_mid is not None:\n            # If guesses not specified, use even spacing')]},
 ]
 EQUIV = [
     {'name': 'default T_mid screen written with an explicit upper index',
@@ -1334,4 +1930,52 @@ EQUIV = [
     {'name': 'NASA-9 anchor helpers loop over the upper intervals by index',
      'edits': [(N, '    for i, row_a in enumerate(a[1:], start=1):', '    for i in range(1, len(a)):', 0, 2),
                (N, '    for i, row_a in enumerate(a[1:], start=1):', '    for i in range(1, len(a)):')]},
+    # white-box review, round 3
+    {'name': 'Shomate: curve_fit on t = T/1000 and a model function of t',
+     'edits': [(S_, _SHO_FIT, '''        t = np.asarray(T, dtype=float) / 1000.
+        adj_shomate_CpoR = lambda t, A, B, C, D, E: _shomate_CpoR_t(
+            t=t, A=A, B=B, C=C, D=D, E=E, units=units)
+        [a, _] = curve_fit(adj_shomate_CpoR, t, np.array(CpoR))'''),
+               (S_, 'def _shomate_CpoR(T, A, B, C, D, E, units):', '''def _shomate_CpoR_t(t, A, B, C, D, E, units):
+    a = np.array([A, B, C, D, E, 0., 0., 0.])
+    t_arr = np.array([[1., x, x**2, x**3, 1. / x**2, 0., 0., 0.] for x in t])
+    return np.dot(t_arr, a) / c.R(units)
+
+
+def _shomate_CpoR(T, A, B, C, D, E, units):''')]},
+    {'name': 'Shomate: the defaults of curve_fit spelled out',
+     'edits': [(S_, '        [a, _] = curve_fit(adj_shomate_CpoR, T, np.array(CpoR))',
+                '        [a, _] = curve_fit(adj_shomate_CpoR, T, np.array(CpoR), p0=np.ones(5), sigma=None,\n'
+                '                           absolute_sigma=False, check_finite=True, bounds=(-np.inf, np.inf))')]},
+    {'name': 'Shomate: Cp in the fitting unit fitted with a model in that unit, on a copy of the data (same minimiser)',
+     'edits': [(S_, _SHO_FIT, '''        R = c.R(units)
+        Cp = np.array(CpoR, dtype=float) * R
+        adj_shomate_Cp = lambda T, A, B, C, D, E: R * _shomate_CpoR(
+            T=T, A=A, B=B, C=C, D=D, E=E, units=units)
+        [a, _] = curve_fit(adj_shomate_Cp, T, Cp)''')]},
+    {'name': 'NASA-7: a small segment fitted with a lower degree, zeros padded in FRONT (highest power first): another '
+             'valid least-squares polynomial, every clause of the property still holds',
+     'edits': [(N, '    if len(T_low) < 5:', '    deg_low = 4\n    if len(T_low) < 5:'),
+               (N, '        warn(warn_msg, RuntimeWarning)\n    if len(T_high) < 5:',
+                '        warn(warn_msg, RuntimeWarning)\n        deg_low = len(T_low) - 1\n    if len(T_high) < 5:'),
+               (N, '    p_low = np.polyfit(x=T_low, y=CpoR_low, deg=4)',
+                '    p_low = np.append(np.zeros(4 - deg_low), np.polyfit(x=T_low, y=CpoR_low, deg=deg_low))')]},
+    {'name': 'NASA-7 zero-Cp fallback: middle data point by floor division',
+     'edits': [(N, '        T_mid = T[int(len(T) / 2)]', '        T_mid = T[len(T) // 2]')]},
+    {'name': 'NASA-9: an interval with fewer than 7 points fitted with a lower degree, zeros padded at the HIGH powers '
+             '(another valid least-squares polynomial)',
+     'edits': [(N, '''        res = np.polyfit(T_cond, CpoR_cond*T_cond**2, 6)
+        a.append(np.append(res[::-1], [0, 0]))''', '''        deg = 6
+        if len(T_cond) < 7:
+            deg = len(T_cond) - 1
+        res = np.polyfit(T_cond, CpoR_cond*T_cond**2, deg)
+        a.append(np.append(res[::-1], np.zeros(8 - deg)))''')]},
+    {'name': 'NASA-9: the fitted quantity built on a copy of the data',
+     'edits': [(N, '        res = np.polyfit(T_cond, CpoR_cond*T_cond**2, 6)',
+                '        y_cond = np.array(CpoR_cond, dtype=float)\n        y_cond *= T_cond**2\n'
+                '        res = np.polyfit(T_cond, y_cond, 6)')]},
+    {'name': 'Nasa9.from_model: the evenly spaced guesses written out',
+     'edits': [(N, '                T_mid0 = np.linspace(T_low, T_high, n_interval + 1)[1:-1]',
+                '                T_mid0 = np.array([T_low + (T_high - T_low) * k / n_interval\n'
+                '                                   for k in range(1, n_interval)])')]},
 ]
